@@ -136,7 +136,10 @@ func (c *queueClass_[V]) Fork(
 
 	// Connect up the input queue to the output queues in a separate go-routine.
 	group.Add(1)
+	verifSpawn()
 	go func() {
+		verifEnter()
+		defer verifExit()
 		// Make sure the wait group is decremented on termination.
 		defer group.Done()
 
@@ -188,7 +191,10 @@ func (c *queueClass_[V]) Split(
 
 	// Connect up the input queue to the output queues.
 	group.Add(1)
+	verifSpawn()
 	go func() {
+		verifEnter()
+		defer verifExit()
 		// Make sure the wait group is decremented on termination.
 		defer group.Done()
 
@@ -237,7 +243,10 @@ func (c *queueClass_[V]) Join(
 
 	// Connect up the input queues to the output queue.
 	group.Add(1)
+	verifSpawn()
 	go func() {
+		verifEnter()
+		defer verifExit()
 		// Make sure the wait group is decremented on termination.
 		defer group.Done()
 
@@ -292,45 +301,58 @@ func (v *queue_[V]) GetCapacity() uint {
 // Limited
 
 func (v *queue_[V]) AddValue(value V) {
+	verifLock(&v.mutex_)
 	v.mutex_.Lock()
 	v.values_.AppendValue(value)
+	verifUnlock(&v.mutex_)
 	v.mutex_.Unlock()
+	verifSend(&v.available_)
 	v.available_ <- true // The queue will block if at capacity.
 }
 
 func (v *queue_[V]) RemoveAll() {
+	verifLock(&v.mutex_)
 	v.mutex_.Lock()
 	v.available_ = make(chan bool, v.capacity_)
 	v.values_ = List[V](v.GetClass().Notation()).Make()
+	verifUnlock(&v.mutex_)
 	v.mutex_.Unlock()
 }
 
 // Sequential
 
 func (v *queue_[V]) IsEmpty() bool {
+	verifLock(&v.mutex_)
 	v.mutex_.Lock()
 	var result = len(v.available_) == 0
+	verifUnlock(&v.mutex_)
 	v.mutex_.Unlock()
 	return result
 }
 
 func (v *queue_[V]) GetSize() int {
+	verifLock(&v.mutex_)
 	v.mutex_.Lock()
 	var size = len(v.available_)
+	verifUnlock(&v.mutex_)
 	v.mutex_.Unlock()
 	return size
 }
 
 func (v *queue_[V]) AsArray() []V {
+	verifLock(&v.mutex_)
 	v.mutex_.Lock()
 	var array = v.values_.AsArray()
+	verifUnlock(&v.mutex_)
 	v.mutex_.Unlock()
 	return array
 }
 
 func (v *queue_[V]) GetIterator() age.IteratorLike[V] {
+	verifLock(&v.mutex_)
 	v.mutex_.Lock()
 	var iterator = v.values_.GetIterator()
+	verifUnlock(&v.mutex_)
 	v.mutex_.Unlock()
 	return iterator
 }
@@ -349,10 +371,13 @@ func (v *queue_[V]) RemoveHead() (V, bool) {
 	var ok bool
 
 	// Remove the head value from the queue if one exists.
+	verifRecv(&v.available_)
 	_, ok = <-v.available_ // Will block until a value is available.
 	if ok {
+		verifLock(&v.mutex_)
 		v.mutex_.Lock()
 		head = v.values_.RemoveValue(1)
+		verifUnlock(&v.mutex_)
 		v.mutex_.Unlock()
 	}
 
@@ -361,8 +386,11 @@ func (v *queue_[V]) RemoveHead() (V, bool) {
 }
 
 func (v *queue_[V]) CloseQueue() {
+	verifLock(&v.mutex_)
 	v.mutex_.Lock()
+	verifClose(&v.available_)
 	close(v.available_)
 	// No more values can be placed on the queue.
+	verifUnlock(&v.mutex_)
 	v.mutex_.Unlock()
 }
